@@ -3,6 +3,15 @@
      sumint <terms>      ->  ok <hex>
      dictionary <terms>  ->  ok <hex list>
      sortexp <terms>     ->  ok <terms>          (harness only sends pairwise distinct exponents)
+     dhist <program>     ->  ok <x registers> then <terms> <Sum.Int> <Dictionary> per sum register
+       a call history in one process; instructions separated by ';', fields by ':':
+         x:<hex>                 new integer register (owned by the caller)
+         dec:<method fields>:<xi>  new sum register := Decompose(x register xi)
+         scrx:<xi>:<hex>         the caller overwrites its own x register in place
+         scrd:<si>:<ti>:<hex>    the caller overwrites D of term (ti mod length) of sum register si
+         sort:<si>               SortByExponent on a sum register
+         dict:<si>, int:<si>     call Dictionary() / Int() and drop the result
+       every call is independent: a scribble changes only the register (term) it names.
    term = d@e (d hex, e decimal), lists comma separated, "-" = empty. *)
 From Coq Require Import String.
 From Coq Require Import List NArith ZArith Bool.
@@ -48,6 +57,112 @@ Definition parse_terms (s : list N) : option (list term) := parse_list parse_ter
 Definition print_decomposition (s : list term) : list N :=
   print_terms s ++ [sp] ++ print_hexN (sum_int s) ++ [sp] ++ print_list print_hexN (dictionary s).
 
+(* ---- call histories ---- *)
+Definition semi : N := 59.
+
+Inductive instr :=
+| IX (v : N)
+| IDec (m : method) (xi : nat)
+| IScrX (xi : nat) (v : N)
+| IScrD (si ti : nat) (v : N)
+| ISort (si : nat)
+| ICall (si : nat).
+
+Definition parse_instr (s : list N) : option instr :=
+  match split colon s with
+  | [f; a] =>
+      if str_eqb f $"x" then option_map IX (parse_hexN a)
+      else if str_eqb f $"sort" then option_map ISort (parse_nat a)
+      else if str_eqb f $"dict" then option_map ICall (parse_nat a)
+      else if str_eqb f $"int" then option_map ICall (parse_nat a)
+      else None
+  | [f; a; b] =>
+      if str_eqb f $"scrx" then
+        match parse_nat a, parse_hexN b with Some xi, Some v => Some (IScrX xi v) | _, _ => None end
+      else None
+  | [f; a; b; c] =>
+      if str_eqb f $"scrd" then
+        match parse_nat a, parse_nat b, parse_hexN c with
+        | Some si, Some ti, Some v => Some (IScrD si ti v)
+        | _, _, _ => None
+        end
+      else if str_eqb f $"dec" then
+        match parse_method (a ++ [colon] ++ b), parse_nat c with
+        | Some m, Some xi => Some (IDec m xi)
+        | _, _ => None
+        end
+      else None
+  | [f; a; b; c; d] =>
+      if str_eqb f $"dec" then
+        match parse_method (a ++ [colon] ++ b ++ [colon] ++ c), parse_nat d with
+        | Some m, Some xi => Some (IDec m xi)
+        | _, _ => None
+        end
+      else None
+  | _ => None
+  end.
+
+Fixpoint set_nth {A} (n : nat) (v : A) (l : list A) : list A :=
+  match l, n with
+  | [], _ => []
+  | _ :: r, O => v :: r
+  | a :: r, S n' => a :: set_nth n' v r
+  end.
+
+(* None = malformed program (index out of range) *)
+Definition step (st : list N * list (list term)) (i : instr) : option (outcome (list N * list (list term))) :=
+  let '(xs, ss) := st in
+  match i with
+  | IX v => Some (Ok (xs ++ [v], ss))
+  | IDec m xi =>
+      match nth_error xs xi with
+      | Some x => Some (obind (decompose m x) (fun s => Ok (xs, ss ++ [s])))
+      | None => None
+      end
+  | IScrX xi v =>
+      match nth_error xs xi with
+      | Some _ => Some (Ok (set_nth xi v xs, ss))
+      | None => None
+      end
+  | IScrD si ti v =>
+      match nth_error ss si with
+      | Some s =>
+          match s with
+          | [] => Some (Ok (xs, ss))
+          | _ => let k := Nat.modulo ti (length s) in
+                 match nth_error s k with
+                 | Some t => Some (Ok (xs, set_nth si (set_nth k (mkTerm v (E t)) s) ss))
+                 | None => None
+                 end
+          end
+      | None => None
+      end
+  | ISort si =>
+      match nth_error ss si with
+      | Some s => Some (Ok (xs, set_nth si (sort_by_exponent s) ss))
+      | None => None
+      end
+  | ICall si =>
+      match nth_error ss si with
+      | Some _ => Some (Ok (xs, ss))
+      | None => None
+      end
+  end.
+
+Fixpoint dhist (prog : list instr) (st : list N * list (list term))
+  : option (outcome (list N * list (list term))) :=
+  match prog with
+  | [] => Some (Ok st)
+  | i :: r =>
+      match step st i with
+      | Some (Ok st') => dhist r st'
+      | other => other
+      end
+  end.
+
+Definition print_state (st : list N * list (list term)) : list N :=
+  print_list print_hexN (fst st) ++ flat_map (fun s => [sp] ++ print_decomposition s) (snd st).
+
 Definition run (line : list N) : list N :=
   match split sp line with
   | [f; a] =>
@@ -57,7 +172,16 @@ Definition run (line : list N) : list N :=
           else if str_eqb f $"dictionary" then r_ok (print_list print_hexN (dictionary s))
           else if str_eqb f $"sortexp" then r_ok (print_terms (sort_by_exponent s))
           else r_badcase
-      | None => r_badcase
+      | None =>
+          if str_eqb f $"dhist" then
+            match map_opt parse_instr (split semi a) with
+            | Some prog => match dhist prog ([], []) with
+                           | Some o => print_outcome print_state o
+                           | None => r_badcase
+                           end
+            | None => r_badcase
+            end
+          else r_badcase
       end
   | [f; m; a] =>
       if str_eqb f $"decompose" then
